@@ -146,6 +146,14 @@ REFACTORS = {
         "        random_ballot = random.choices(ballots, weights=weights, k=1)[0]\n",
         "        _order = random.choices(range(len(ballots)), weights=weights, k=1)[0]\n        random_ballot = ballots[_order]\n",
         "RandomDictator draws the ballot's index instead of the ballot"),
+    "ok-spatial-sqrt-of-squared-differences": ("C16,C14", "votekit/ballot_generator.py",
+        "            distance_dict = {\n                c: self.distance(voter_positions[v], c_position)\n                for c, c_position in candidate_position_dict.items()\n            }",
+        "            distance_dict = {\n                c: (\n                    float(np.sqrt(np.sum((voter_positions[v] - c_position) ** 2)))\n                    if self.distance is euclidean_dist\n                    else self.distance(voter_positions[v], c_position)\n                )\n                for c, c_position in candidate_position_dict.items()\n            }",
+        "Spatial computes the Euclidean distance as sqrt(sum(diff^2)) from the exact differences (last-bit differences from np.linalg.norm at most)"),
+    "ok-tiebreak-samples-sorted-candidates": ("C17,C10", "votekit/utils.py",
+        "        new_ranking = tuple(\n            frozenset({c}) for c in random.sample(list(r_set), k=len(r_set))\n        )",
+        "        new_ranking = tuple(\n            frozenset({c}) for c in random.sample(sorted(r_set), k=len(r_set))\n        )",
+        "random tiebreak samples from the sorted candidate list"),
 }
 
 
